@@ -690,6 +690,17 @@ func replayObligation(e *Engine, o *Obligation, outDir, work string) (string, bo
 	}
 	sort.Strings(paths)
 	bodyText := vb.buf.String() + strings.Join(argExprs, " ")
+	for i := 0; i < fn.Signature.Results().Len(); i++ {
+		bodyText += " " + vb.typeStr(fn.Signature.Results().At(i).Type())
+	}
+	for _, p := range fn.Params {
+		bodyText += " " + vb.typeStr(p.Type())
+	}
+	paths = paths[:0]
+	for p := range vb.imports {
+		paths = append(paths, p)
+	}
+	sort.Strings(paths)
 	for _, p := range paths {
 		if strings.Contains(bodyText, vb.imports[p]+".") {
 			fmt.Fprintf(&src, "\t%s %q\n", vb.imports[p], p)
